@@ -1,8 +1,24 @@
 from io import TextIOBase
-from xml.sax.saxutils import XMLGenerator
+from xml.sax.saxutils import XMLGenerator, escape
 
 from xsdata.formats.dataclass.serializers.config import SerializerConfig
 from xsdata.formats.dataclass.serializers.mixins import XmlWriter
+
+
+class XmlGenerator(XMLGenerator):
+    """Xml generator that keeps carriage returns in character data.
+
+    The stdlib generator writes them as is and a parser reads
+    them back as line feeds, write a character reference instead.
+    """
+
+    def characters(self, content: str) -> None:
+        """Write the character data with markup and carriage returns escaped."""
+        if content:
+            self._finish_pending_start_element()
+            if not isinstance(content, str):
+                content = str(content, self._encoding)
+            self._write(escape(content, {"\r": "&#13;"}))
 
 
 class XmlEventWriter(XmlWriter):
@@ -41,7 +57,7 @@ class XmlEventWriter(XmlWriter):
         Returns:
             A xml generator content handler instance.
         """
-        return XMLGenerator(
+        return XmlGenerator(
             out=self.output,
             encoding=self.config.encoding,
             short_empty_elements=True,
